@@ -13,6 +13,9 @@ Inductive c19case :=
     (* counters after ValidateDocument with the overlap rule alone *)
 | PlanCase (S : schema) (W : wdoc) (ctr : list N)
     (* counters after PlanQuery *)
+| DynPlanCase (W : wdoc) (ctr : list N)
+    (* counters after PlanQuery + ExecutePlan of a document whose root level carries a
+       variable-driven directive (collected and planned when the plan is executed) *)
 | CycleCase (W : wdoc) (ctr : list N)
     (* counters after ValidateDocument with NoFragmentCycles alone *)
 | GrowthCase (points : list (N * list N))
@@ -64,6 +67,13 @@ Definition check (c : c19case) : N :=
     if 4 * size * size + 4 <? calls then 2
     else if 4 * size * size * size + 100 <? ctr_at 0 ctr then 2
     else if negb (calls =? p_calls (plan_doc S0 D true fuel)) then 1
+    else 0
+  | DynPlanCase W ctr =>
+    (* planning moved to execution time obeys the same bounds: sub-plans stay shared *)
+    let D := erase W in
+    let size := doc_size D in
+    if 4 * size * size + 4 <? ctr_at 1 ctr then 2
+    else if 4 * size * size * size + 100 <? ctr_at 0 ctr then 2
     else 0
   | CycleCase W ctr =>
     (* C19_cycle_search_bound: every fragment is descended into at most once *)
